@@ -66,6 +66,7 @@ class Monitor(object):
         self.pending = {}       # (side, ssap) -> (miu, rw) of a sent CONNECT
         self.closed = []        # End objects of finished connections
         self.unknown = 0        # numbered PDUs outside any known connection
+        self.before_cc = 0      # I PDUs sent to an endpoint still waiting for CC
         self.frmr = 0
 
     # ------------------------------------------------------------ plumbing
@@ -125,6 +126,9 @@ class Monitor(object):
         me, peer = self._pair(side, p, True)
         if me is None or peer is None:
             self.unknown += 1
+            if t == "I" and (_other(side, self.sides),
+                             p["dsap"]) in self.pending:
+                self.before_cc += 1
             return
         if t == "I":
             if p["ns"] != me.sent_i % 16:
